@@ -469,8 +469,12 @@ class World:
             kw["default_options"] = self._given(p["default_options"])
         factory = abstractdataset if p["abstract"] else dataset
         if p["factory"] == "chain":
-            # the same definition spelled as a chain of specialised factories: effects one call each (they
-            # accumulate), every other keyword in a call of its own, a NoCache via the .nocache property
+            # the same definition spelled as a chain of specialised factories: parameters one .where() call
+            # each instead of argument defaults (they accumulate), effects one call each (they accumulate
+            # too), every other keyword in a call of its own, a NoCache via the .nocache property
+            body.__defaults__ = None
+            for i, prm in enumerate(params):
+                factory = factory.where(**{f"p{i}": prm})
             for e in kw.pop("effects", []):
                 factory = factory(effects=[e])
             if isinstance(kw.get("cache"), NoCache):
